@@ -39,6 +39,11 @@ struct Call {
 };
 static std::string str_content(size_t len, uint8_t pat) {
   std::string s(len, '\0');
+  if (pat >= 128) {   // incompressible content (half of the patterns): a compressor has to emit about as much as it takes in
+    uint64_t x = 0x9E3779B97F4A7C15ull * (pat + 1) + len;
+    for (size_t i = 0; i < len; i++) { x ^= x << 13; x ^= x >> 7; x ^= x << 17; s[i] = (char)(x >> 32); }
+    return s;
+  }
   for (size_t i = 0; i < len; i++) s[i] = (char)((pat + i * 7 + (i >> 8)) & 0xFF);
   return s;
 }
@@ -263,6 +268,11 @@ static void c06_seq(Case& cs) {
   unsigned n = (unsigned)c.range(1, 10 + cs.size * 3);
   std::vector<Call> seq;
   for (unsigned i = 0; i < n; i++) seq.push_back(gen_call(c, cs.size));
+  if (c.range(0, 7) == 0) {   // volume: 100..600 KB of mostly incompressible strings in pieces of 100..3000 bytes
+    unsigned m = (unsigned)c.range(100, 300);
+    for (unsigned i = 0; i < m; i++) { Call k; k.op = c.coin() ? OP_BSTR_S : OP_BSTR_P; k.u = c.range(100, 3000); k.pat = (uint8_t)(128 + (i * 37 + n) % 128); seq.push_back(k); }
+    cs.st.cls("volume_of_incompressible_strings");
+  }
   std::string expect, raw;
   FdOut out;
   std::string name = cs.scratch + "/c06out";
